@@ -37,7 +37,8 @@ impl Memory for ProcMem {
             return Err(format!("read of implausible length {len} at {addr:#x}"));
         }
         let mut v = vec![0u8; len];
-        unsafe { std::ptr::copy_nonoverlapping(addr as usize as *const u8, v.as_mut_ptr(), len) };
+        // `copy`, not `copy_nonoverlapping`: a dangling guest pointer may point into this very buffer
+        unsafe { std::ptr::copy(addr as usize as *const u8, v.as_mut_ptr(), len) };
         Ok(v)
     }
     fn write(&mut self, addr: u64, bytes: &[u8]) -> Result<(), String> {
